@@ -55,4 +55,18 @@ theorem C02_sound (w : World) (c : Config) (fuel : Nat) (s₀ s' : ScanState) (c
   | tok s s₁ s' t v rest hy _ ih => exact .tok s s₁ s' t v rest hy ih
   | incl s s₁ s' t text file line rest hy _ ih => exact .incl s s₁ s' t text file line rest hy ih
 
+/-- Every grammar action of the compiled parser has its catalogued text (the translator
+re-reads lib/grammar.c on every run; an edited action becomes `.unknown`), and so do the
+helper macros and functions the actions rely on (`IN_ARRAY`, `IN_LIST`, `CAPTURE_PARSE_POS`,
+`capture_parse_pos`, `libconfig_yyerror`). -/
+theorem C02_actions_known :
+    (∀ a ∈ Generated.parseActions, a ≠ ParseAct.unknown) ∧ Generated.parseHelpersKnown = true ∧
+    Generated.parseActions.length = Generated.parser.nrules + 1 := by decide
+
+/-- the documented error texts -/
+theorem C02_error_texts :
+    Generated.ERR_SYNTAX = [115, 121, 110, 116, 97, 120, 32, 101, 114, 114, 111, 114] ∧
+    Generated.ERR_DUPLICATE_SETTING = [100, 117, 112, 108, 105, 99, 97, 116, 101, 32, 115, 101, 116, 116, 105, 110, 103, 32, 110, 97, 109, 101] ∧
+    Generated.ERR_ARRAY_ELEM_TYPE = [109, 105, 115, 109, 97, 116, 99, 104, 101, 100, 32, 101, 108, 101, 109, 101, 110, 116, 32, 116, 121, 112, 101, 32, 105, 110, 32, 97, 114, 114, 97, 121] := by decide
+
 end Libconfig.C02
